@@ -56,6 +56,14 @@ Theorem C01_read_encode : forall ch body bs t,
 Proof. exact read_encode. Qed.
 Print Assumptions C01_read_encode.
 
+(* what [expected] says about the instruction list: nothing invented, nothing dropped, nothing moved *)
+Theorem C01_expected_shape : forall body t,
+  length (cs_insns (expected body t)) = length body /\
+  forall k i, nth_error body k = Some i ->
+    exists fr, nth_error (cs_insns (expected body t)) k = Some (mem_nat k (refs body t), fr, map_insn Some i).
+Proof. exact expected_shape. Qed.
+Print Assumptions C01_expected_shape.
+
 (* tables_resolve, frames: the m-th frame, naming instruction f, ends up on instruction f *)
 Theorem C01_frames_attached : forall cnt k fs j,
   incr_from k fs -> (forall f, In f fs -> (f < k + cnt)%nat) ->
@@ -149,6 +157,14 @@ Theorem C01_flags_match_jvms : forall kind, kind <= 8 ->
   fst (flag_tables kind) = jvms_flags kind /\ snd (flag_tables kind) = jvms_flags kind.
 Proof. exact flags_match_jvms. Qed.
 Print Assumptions C01_flags_match_jvms.
+
+(* ---- header ------------------------------------------------------------------------------------- *)
+(* skeleton, gate: the reader accepts exactly magic 0xCAFEBABE with a version up to 67.0 (constants
+   regenerated from class_reader.rs / version.rs) *)
+Theorem C01_header_gate : forall mg minor major, minor < 65536 ->
+  (header_ok mg minor major = true <-> mg = 3405691582 /\ (major < 67 \/ (major = 67 /\ minor = 0))).
+Proof. exact header_gate. Qed.
+Print Assumptions C01_header_gate.
 
 (* ---- non-vacuity -------------------------------------------------------------------------------- *)
 Theorem C01_examples : nonvacuous.
